@@ -472,3 +472,46 @@ PROPS["C20"] = {
     "env": {},
     "design_ref": "DESIGN.md section 8 (as built; plan in section 3), C20",
 }
+
+# ---------------------------------------------------------------------------------------------------------------------
+# Round e (2026-09-26): workload additions made after the fifth round of seeded changes, and the monitor counters that
+# must be reached for a run to count (a run that did not reach the new situations is INCONCLUSIVE, not held).
+ROUND_E = {
+    "C01": ("budget cells: 12 loops that cannot finish inside a 300 ms execution budget (FOR / WHILE / REPEAT / JMP with empty, one-statement and nested bodies, in a program, a function and an FB) "
+            "run on a watchdog thread; the cycle must come back (ExecutionTimeout or Ok) within 20 s, a cycle that does not is reported as non-termination (it cannot be interrupted, so this part runs last and stops at the first hang).",
+            {"budget_cells_returned": 12}),
+    "C02": ("semantic cell `comparisons-at-type-limits`: =, <>, <, <=, >, >= and MAX on ULINT values above 2^63 (reached by computation), UDINT / UINT / USINT above their signed ranges and the most negative LINT (16 expected values).",
+            {"semantic_cells_checked": 17, "semantic_cell_values_compared": 123}),
+    "C03": ("cells `subrange defaults` / `subrange of alias default`: variables, array elements, struct fields, FB inputs / outputs / state of subrange types that exclude 0, never assigned - the range clause applies from the first cycle boundary on.", {}),
+    "C04": ("a sixth of the traces change PT between calls; for TON the exact model is replaced there by what the property states for every trace: ET <= current PT, Q only while IN is TRUE and has been TRUE (by the attribution rule) for at least the current PT.", {}),
+    "C05": ("retain save cadence: with a retain store and a save interval the same program and clock trace (including a warm / cold restart that takes the runtime clock back) run twice, once at full speed and once with 1.5 ms host-time pauses between cycles; "
+            "the recorded store calls (cycle index, content) must be identical.", {"retain_cadence_runs_compared": 6}),
+    "C06": ("reconfiguration: the task set of a running resource is replaced through apply_bytecode_bytes (12 ordered pairs of 4 configurations: both programs on a task, no task, one on a task, one on a slow task); afterwards programs without a task must run in every cycle, "
+            "programs with a task at most once per cycle and when due.", {"reconfigurations_checked": 12}),
+    "C07": ("arrays bound to direct addresses: 10 shapes with 1-4 dimensions (non-zero lower bounds, element sizes 1 / 2 / 4 bytes) copied element by element from %I to %Q; published bytes = latched bytes over the span, element probes = decode at the row-major position, bytes behind the span untouched.",
+            {"compound_binding_cycles_checked": 30}),
+    "C08": ("every other fault point attaches a debugger to the halted resource and queues variable and I/O writes before each refused cycle: a refused cycle must not apply them.", {"debugger_writes_queued_while_halted": 3000}),
+    "C09": ("restarts that fail part-way: a program variable whose initial value divides by a retained global that is 0 makes a warm restart fail; 4 scripts (warm-cold, warm-warm-cold, warm-cycle-cold, twice over) - the following cold restart must succeed and equal a newly built runtime immediately and over 4 cycles.",
+            {"failed_warm_restarts_followed_by_a_cold_restart": 4}),
+    "C10": ("part A: a third of the round trips store over an existing snapshot of another class at the same path (larger, smaller, non-empty before empty).", {"A_stores_over_an_existing_snapshot": 30}),
+    "C11": ("structure mutants `task-fb-ref:extreme-index`: a task's FB list names a reference into an array (lower bounds 0, 1, -2; the compiler emits such references for literal-index accesses) whose index values are i64::MIN, MIN+1, MIN+2, MAX, MAX-1, -1, +-2^62; the containers validate and are applied.", {}),
+    "C12": ("corpus `snippet`: every raw-string source snippet of the repository's own parser / checker tests (they cover VAR_ACCESS, VAR_CONFIG, properties, actions, namespaces ...), as is and with every (quick: up to 24 evenly spread) single non-trivia token deleted or doubled, alone and behind another top-level item.",
+            {"snippet_token_mutants": 6000}),
+    "C13": ("a fifth of the histories query the database (diagnostics, symbols, analyze, expression types) before it has ever held a file.", {"queries_before_the_first_file": 100}),
+    "C14": ("a tenth of the initial texts start with a byte order mark (one UTF-16 unit of line 0 in the editor's text).", {"histories_on_texts_starting_with_a_byte_order_mark": 10}),
+    "C15": ("text class `composed` gained 10 lines whose string literals hold comment / pragma delimiters (`'http://..'`, `'(* x *)'`, `'{p}'`, `'*) // (*'`) followed by real comments.", {}),
+    "C16": ("fixed project `twin`: two function-block files of identical layout (every declaration of one sits at the byte range of a declaration of the other) and a program using both, in both load orders.", {}),
+    "C18": ("part X (parameters at the extremes): for every request type each plausible parameter (for config.set every key scraped from handle_config_set, except control.auth_token) is replaced in turn by 27 extreme values (integer limits, the ms->ns overflow boundary, 1e308, empty / 70 kB / NUL strings, absurd addresses and durations, null, arrays, objects, 100-fold nesting) "
+            "and sent with the admin credential: one parseable reply line, config.get still served afterwards, and a caller without a credential still refused.", {"X_extreme_requests": 3000, "X_unauthenticated_follow_ups_refused": 1500}),
+    "C19": ("part B2: one file under two path names inside the project (a hard link), two editor sessions that each use their own name, strictly alternating calls: a write based on a content that is no longer the file's content must be refused whichever name it comes through.",
+            {"B2_alias_histories_checked": 500, "B2_stale_writes_refused": 500}),
+    "C20": ("controller scripts also send mesh updates for names that are not shared (empty map / unknown name) to idle and running resources: they must not disturb the shared store.", {"mesh_updates_for_unshared_names_sent": 1000}),
+}
+for _pid, (_note, _req) in ROUND_E.items():
+    PROPS[_pid]["level_note"] = (PROPS[_pid].get("level_note", "") + " Round e: " + _note).strip()
+    PROPS[_pid].setdefault("require_counters", {}).setdefault("quick", {}).update(_req)
+
+# Auxiliary Miri pass (thorough tier of C12): see DESIGN 7.5.  Never required: a missing toolchain leaves a note in the evidence.
+PROPS["C12"]["thorough"]["miri"] = {"bin": "msyntax", "processes": 12, "count": 60, "timeout_s": 1500}
+PROPS["C12"]["level_note"] += (" Thorough tier, auxiliary: 12 processes of harness_miri/src/bin/msyntax.rs (monitors L1-L4, a full cursor walk and clone_for_update over about 700 small inputs, purity pairs on two threads) are interpreted by Miri "
+                               "(-Zmiri-disable-stacked-borrows: rowan 0.15 is known not to satisfy either experimental aliasing model, which is outside this repository; use-after-free, out-of-bounds, uninitialised reads, misalignment and data races in the unsafe code of rowan / logos / smol_str reached by the parser are reported as `miri|undefined-behaviour|...`).")
